@@ -18,9 +18,24 @@ class Bad(Exception):
         self.mech = mech
 
 
+class RowView(dict):
+    """Snapshot of a stored row; an absent key of a defaultdict row reads as its default."""
+    default = None
+
+    def __missing__(self, key):
+        if self.default is None:
+            raise KeyError(key)
+        return self.default()
+
+
 def snap_storage(st):
     xs, ys = st.get_data()
-    return [id(r) for r in xs], [dict(r) for r in xs], list(ys)
+    rows = []
+    for r in xs:
+        v = RowView(r)
+        v.default = getattr(r, "default_factory", None)
+        rows.append(v)
+    return [id(r) for r in xs], rows, list(ys)
 
 
 def as_container(kind, subset):
@@ -73,15 +88,21 @@ def check_call(kind, strategy, model, names, x, subset, n, inputs, results, rows
                 if not (xi[f] == defaults[f]):
                     raise Bad("not-default-value", f"feature {f!r} imputed with {xi[f]!r}, default is {defaults[f]!r}")
         else:
-            src = {}
+            src, cand_sets = {}, []
             for f in sub:
                 cands = [i for i, r in enumerate(rows_before) if r[f] == xi[f]]
                 if not cands:
                     raise Bad("not-a-stored-value", f"feature {f!r} imputed with {xi[f]!r} which no stored observation has "
                                                     f"(instance value {x[f]!r})")
                 src[f] = cands[0]
-            if strategy == "joint" and len(set(src.values())) > 1:
+                cand_sets.append(set(cands))
+            # (values need not be unique across rows - sparse rows share defaults - so "the same stored observation" means:
+            #  at least one stored row carries ALL the imputed values)
+            common = set.intersection(*cand_sets) if cand_sets else set()
+            if strategy == "joint" and not common:
                 raise Bad("joint-mixed-rows", f"joint strategy mixed stored observations {src}")
+            if strategy == "joint":
+                src = {f: min(common) for f in src}
             sources.add(tuple(sorted((repr(f), i) for f, i in src.items())))
     return sources
 
@@ -111,14 +132,20 @@ def main(run):
         row_order = list(enumerate(names))
         if rnd.random() < 0.5:
             rnd.shuffle(row_order)             # stored observations may list their keys in another order than the instance
+        sparse = kind == "marginal" and rnd.random() < 0.2
         wide = rnd.random() < 0.3              # ... and may carry keys the instance does not have (sparse / evolving dicts)
         for t in range(m):
             row = {f: (falsy[j][1] if j in falsy and falsy[j][0] == t else 1000 * (t + 1) + j) for j, f in row_order}
             if wide:
                 row = {"row_only": -t, **row}
+            if sparse:       # sparse stream: rows are defaultdicts, a zero-valued feature is simply absent
+                import collections
+                zero_feats = [f for j, f in row_order if rnd.random() < 0.3]
+                row = collections.defaultdict(float, {k: v for k, v in row.items() if k not in zero_feats})
             st.update(row, t)
         defaults = {f: (rnd.choice([0, 0.0, False, "", None]) if rnd.random() < 0.4 else -(j + 1)) for j, f in enumerate(names)}
-        imp = DefaultImputer(model, dict(defaults)) if kind == "default" else MarginalImputer(model, strategy, st)
+        strat_arg = rnd.choice([strategy, "".join(list(strategy)), str(__import__("numpy").str_(strategy))])   # equal strings, not the literal object
+        imp = DefaultImputer(model, dict(defaults)) if kind == "default" else MarginalImputer(model, strat_arg, st)
         x = {f: 900000 + j for j, f in enumerate(names)}
         x["extra"] = 7
         if subsets is None:
